@@ -2859,7 +2859,8 @@ pub mod config {
                         text: content.into(),
                     }),
                     importance: Importance::Default,
-                }],
+                }]
+                .into(),
             }
         }
 
